@@ -57,7 +57,7 @@ def _digests(profiles, n, hashseed, njobs, flags, base=0):
 
 def determinism(njobs):
     from .plan import PROFILES
-    profiles = sorted(PROFILES)
+    profiles = sorted(PROFILES) + ['kofn', 'huge', 'bigbatch', 'trunc']
     n = int(os.environ.get('VERIF_DET_RUNS', '2400'))
     configs = [
         ('hashseed=0 jobs=%d' % njobs, 0, njobs, []),
